@@ -117,6 +117,9 @@ UClasses ==
    PIB  |-> [Cls("dataclass", << F("a", TInt) >>) EXCEPT !.postinc = "a"],
    PIC  |-> [Cls("dataclass", << [F("a", TInt) EXCEPT !.inherited = TRUE], FD("b", TStr, DStr("x")) >>)
                EXCEPT !.postinc = "a", !.bases = <<"PIB">>],
+   \* a plain subclass pair: an instance of DS is a value of BS as well (and of the first alternative of Union[BS, DS])
+   BS   |-> Cls("dataclass", << F("a", TInt) >>),
+   DS   |-> [Cls("dataclass", << [F("a", TInt) EXCEPT !.inherited = TRUE], FD("b", TStr, DStr("x")) >>) EXCEPT !.bases = <<"BS">>],
    \* TypedDict with an explicitly aliased key
    TDA  |-> Cls("typeddict", << [F("foo", TInt) EXCEPT !.alias = "Foo"], FD("bar", TEnum("ES"), VUndef) >>),
    CZ   |-> Cls("dataclass", << [F("a", TAnnot(TInt, << <<"min", 0>> >>)) EXCEPT !.cons = << <<"max", 10>> >>],
@@ -211,6 +214,9 @@ UnsUnions == { [k |-> "union", alts |-> <<TNone, TInt>>, uns |-> << <<1, TStr>> 
 UnionTypes == { TUnion(<<TInt, TFloat>>), TUnion(<<TFloat, TInt>>), TUnion(<<TInt, TFloat, TBool>>),
                 TUnion(<<TStr, TLit(<<DStr("a")>>)>>), TUnion(<<TLit(<<DStr("a")>>), TStr>>),
                 TUnion(<<TObj("P1"), TObj("P2")>>), TUnion(<<TObj("P2"), TObj("P1")>>),
+                \* a class and its subclass as alternatives, in both orders; a container of the base class
+                TUnion(<<TObj("BS"), TObj("DS")>>), TUnion(<<TObj("DS"), TObj("BS")>>), TUnion(<<TObj("DS"), TObj("BS"), TNone>>),
+                TColl("list", TObj("BS")), TMap(TStr, TObj("BS")),
                 TUnion(<<TColl("list", TInt), TTuple(<<TInt, TStr>>)>>),
                 TUnion(<<TEnum("ES"), TStr, TNone>>), TUnion(<<TFloat, TStr>>),
                 TUnion(<<TUnion(<<TInt, TStr>>), TNone>>),
